@@ -7,6 +7,7 @@ import random
 import shutil
 import sys
 import threading
+import time
 import traceback
 
 from vf.core import pz
@@ -96,10 +97,43 @@ def _crafted(which):
         props = b"\x11\x01\x00" * 18
         hdr = b"\x01\x05" + _num(480) + props + b"\x00\x00"
         return _seal(hdr)
+    if which == "padded-header-4M-files":
+        # a packed header that decodes to 'Header, FilesInfo, 4194304 files, End, End' and 512 KiB of zero padding (fifth hunt)
+        d_ = 512 << 10
+        raw = b"\x01\x05" + _num(8 * d_) + b"\x00\x00"
+        return W.build([], {"folders": [], "header": "lzma"}, header_bytes_hook=lambda h: raw + bytes(d_ - len(raw)))
+    if which == "700-streams-700-members":
+        # one folder, one complex Copy coder of n in- and n out-streams, n-1 bind pairs (0, k+1), n members of no bytes
+        n = 700
+        coder = b"\x11\x00" + _num(n) + _num(n)
+        folder = b"\x01" + coder + b"".join(b"\x00" + _num(k + 1) for k in range(n - 1))  # one in-stream stays unbound: the packed one
+        streams = b"\x06\x00\x01\x09\x00\x00" + b"\x07\x0b\x01\x00" + folder + b"\x0c" + b"\x00" * n + b"\x00"
+        sub = b"\x08\x0d" + _num(n) + b"\x09" + b"\x00" * (n - 1) + b"\x00"
+        names = b"".join(("m%d" % i).encode("utf-16le") + b"\x00\x00" for i in range(n))
+        files = b"\x05" + _num(n) + b"\x11" + _num(len(names) + 1) + b"\x00" + names + b"\x00"
+        return _seal(b"\x01\x04" + streams + sub + b"\x00" + files + b"\x00")
+    if which == "external-names-x6000":
+        # one file; a name of 6000 characters parked in a Dummy property; 6000 Names properties that refer to it as external data
+        k, ln = 6000, 6000
+        name = ("n" * ln).encode("utf-16le") + b"\x00\x00"
+        dummy = b"\x19" + _num(len(name)) + name
+        # the offset of the parked name inside the header buffer: 01 05 01 | 19 <num> | name
+        off = 3 + 1 + len(_num(len(name)))
+        ext = b"\x11" + _num(1 + len(_num(off))) + b"\x01" + _num(off)
+        return _seal(b"\x01\x05\x01" + dummy + ext * k + b"\x00\x00")
+    if which == "3000-coders-3000-members":
+        c, f = 3000, 3000
+        folder = _num(c) + b"\x01\x00" * c + b"".join(_num(i + 1) + _num(i) for i in range(c - 1))
+        streams = b"\x06\x00\x01\x09\x00\x00" + b"\x07\x0b\x01\x00" + folder + b"\x0c" + b"\x00" * c + b"\x00"
+        sub = b"\x08\x0d" + _num(f) + b"\x09" + b"\x00" * (f - 1) + b"\x00"
+        names = b"".join(("m%d" % i).encode("utf-16le") + b"\x00\x00" for i in range(f))
+        files = b"\x05" + _num(f) + b"\x11" + _num(len(names) + 1) + b"\x00" + names + b"\x00"
+        return _seal(b"\x01\x04" + streams + sub + b"\x00" + files + b"\x00")
     raise ValueError(which)
 
 
-CRAFTED = ["packstreams-2^40-no-sizes", "substreams-2^27-no-sizes", "60000-empty-packstreams", "30000-bindpairs", "names-without-data"]
+CRAFTED = ["packstreams-2^40-no-sizes", "substreams-2^27-no-sizes", "60000-empty-packstreams", "30000-bindpairs", "names-without-data",
+           "padded-header-4M-files", "700-streams-700-members", "external-names-x6000", "3000-coders-3000-members"]
 BOMB_CODECS = ["DEFLATE", "BZip2", "LZMA2", "LZMA", "ZStandard", "Brotli"]
 _bombs = {}
 
@@ -243,6 +277,7 @@ def cases(rng, tier):
             out.append({"fam": "props", "id": mid, "props": props, "seqs": _seqs(rng, 4), "open": "stream"})
     # (f) hand-crafted headers whose counts are not backed by the bytes that follow (sections left out), or whose
     # tables are long (quadratic parsers): found by a bug hunt, not reachable by one-token mutation of a valid header
+    out.append({"fam": "slashslash"})
     for name in CRAFTED:
         out.append({"fam": "crafted", "which": name, "seqs": [["getnames"], ["list"], ["extractall"], ["testzip"]], "open": "stream"})
     # (e) decompression bombs: a folder whose packed stream expands to 768 MiB of zeros while the header declares two members
@@ -732,6 +767,51 @@ def _run_valgrind(case):
     return K.result("held", cells=[cell], obs=obs, sample=sample)
 
 
+def _run_slashslash(case):
+    """A valid archive, opened by name and from a stream, extracted into a destination spelled in ways that name the same
+    directory ('//abs', 'abs/', 'abs/.', './rel', 'rel//'): every call returns within the budget (fifth hunt: '//' never did)."""
+    import py7zr
+
+    from vf.core import worker as WK
+
+    obs = {"call_sequences_run": 0, "calls_returned_or_raised": 0, "max_seq_cpu_ms": 0, "max_rss_rise_kb": 0}
+    viol, cells = [], set()
+    cwd0 = os.getcwd()
+    with pz.scratch("vf-c05d-") as d:
+        arc = os.path.join(d, "v.7z")
+        for i in range(3):
+            with py7zr.SevenZipFile(arc, "w" if i == 0 else "a") as z:
+                z.writestr(b"member %d " % i * 30, "d%d/f%d.txt" % (i, i))
+        with open(arc, "rb") as f:
+            data = f.read()
+        os.chdir(d)
+        try:
+            for spell in ("//{D}/o1", "{D}/o2/", "{D}/o3/.", "./o4", "o5//", "///{D}/o6", "{D}/./o7"):
+                dest = spell.replace("{D}", d.lstrip("/"))
+                if not dest.startswith((".", "o", "/")):
+                    dest = "/" + dest
+                for how in ("path", "stream"):
+                    t0 = time.process_time()
+                    outcome = "returned"
+                    try:
+                        with WK.inner_budget(SEQ_CPU_BUDGET * 2):
+                            with py7zr.SevenZipFile(arc if how == "path" else io.BytesIO(data)) as z:
+                                z.extractall(dest)
+                    except WK.CpuBudget as e:
+                        fn = _innermost(e)
+                        return K.result("violated", key="spin/%s/valid-archive" % fn, what="valid three-folder archive opened by %s, extractall(%r): no return within %.1fs CPU; spinning in %s" % (
+                            how, spell, SEQ_CPU_BUDGET * 2, fn), _restart=True)
+                    except Exception as e:
+                        outcome = "raised:" + type(e).__name__
+                    obs["call_sequences_run"] += 1
+                    obs["calls_returned_or_raised"] += 1
+                    obs["max_seq_cpu_ms"] = max(obs["max_seq_cpu_ms"], int((time.process_time() - t0) * 1000))
+                    cells.add("dest-spelling|%s|%s|%s" % (spell, how, outcome))
+        finally:
+            os.chdir(cwd0)
+    return K.result("held", cells=sorted(cells), obs=obs, sample={"family": "slashslash"})
+
+
 def run_case(case):
     from vf.core import worker as WK
 
@@ -742,6 +822,8 @@ def run_case(case):
     fam = case["fam"]
     if fam == "repeat":
         return _run_repeat(case)
+    if fam == "slashslash":
+        return _run_slashslash(case)
     if fam == "valgrind":
         return _run_valgrind(case)
     if fam in ("intact", "damage", "password"):
